@@ -2,7 +2,7 @@
 from vplib import Run
 
 RT = ["vp_rt.c", "vp_ghost.c"]
-DS_SRCS = ["ds_main.c", "ds_wsd.c", "ds_stubs.c"] + RT
+DS_SRCS = ["ds_main.c", "ds_wsd.c", "ds_mpmc.c", "ds_mpsc.c", "ds_ring.c", "ds_wq.c", "ds_cas2.c", "ds_hazard.c", "ds_selftest.c"] + RT
 
 BINARIES = {
     "h_ds": ("h_ds", DS_SRCS),
@@ -61,6 +61,88 @@ def c02(tier, seed):
     )
 
 
+
+def ds_plan(tier, seed, subs, stall_points, thread_sets, rounds_q=60, rounds_t=600, ops=3000, extra=None):
+    """generic plan for a container property: raw + jitter + skew + targeted stalls, mon/asan/dbg variants"""
+    q = tier == "quick"
+    runs = []
+    k = 0
+    rounds = rounds_q if q else rounds_t
+    for sub in subs:
+        for thr in (thread_sets[0] if q else thread_sets[1]):
+            for mode in ("nohook", "jitter", "skew"):
+                k += 1
+                runs.append(ds("mon", sub, seed, k, thr, mode=mode, hist=1, rounds=rounds, ops=ops, **(extra or {})))
+            for sp in stall_points:
+                k += 1
+                runs.append(ds("mon", sub, seed, k, thr, mode="stall", stall_point=sp, stall_us_lo=30, stall_us_hi=600,
+                               stall_every=7, rounds=max(10, rounds // 3), ops=ops, **(extra or {})))
+        for thr in ([thread_sets[0][-1]] if q else thread_sets[1][-2:]):
+            k += 1
+            runs.append(ds("asan", sub, seed, k, thr, mode="jitter", rounds=max(10, rounds // 3), ops=ops, **(extra or {})))
+            k += 1
+            runs.append(ds("dbg", sub, seed, k, thr, mode="jitter", rounds=max(10, rounds // 3), ops=ops, **(extra or {})))
+    return runs
+
+
+HIST_RULE = ("a case = one stamped history (round) of a fresh structure: seeded role split over the worker threads, unique values, "
+             "invocation/return stamps from one global atomic counter, final single-threaded drain. distinct_nontrivial = number of "
+             "distinct (thread,op,result) invocation-order sequences among histories in which operations of different threads overlapped. ")
+
+
+def c13(tier, seed):
+    return dict(runs=ds_plan(tier, seed, ["mpmc"], ["MPMC_POP_PRE_CAS", "MPMC_PUSH_MID", "HP_SCAN_SNAPSHOT"], ([2, 4, 8], [2, 3, 4, 8, 16])),
+                rule=HIST_RULE + "Oracles: no phantom, exactly-once, no loss, real-time FIFO (definite pattern), EMPTY only if no value was inside "
+                "for the whole call or a push overlapped; nodes reclaimed by the hazard GC are freed (ASan) or poisoned and recycled at once.",
+                min_events={"mpmc_nodes_reclaimed_by_hazard_gc": 100, "mpmc_pop_empty": 1, "histories_with_overlap": 10},
+                assumptions=ASSUME_COMMON)
+
+
+def c14(tier, seed):
+    runs = ds_plan(tier, seed, ["hazard"], ["HP_SCAN_SNAPSHOT", "H100"], ([2, 4, 8], [2, 3, 4, 8, 16]), ops=4000)
+    # the MPMC FIFO is the structure built on it: "no structure built on it dereferences a reclaimed node"
+    runs += ds_plan(tier, seed + 17, ["mpmc"], ["HP_SCAN_SNAPSHOT"], ([8], [4, 16]), rounds_q=30, rounds_t=300)
+    return dict(runs=runs,
+                rule="a case = one round: seeded split into writers (unlink from 8 shared slots + hazard_pointer_free) and readers (publish, "
+                "re-validate, hold 1..K validated protections, release), K fixed per process (1..4), late-joining records, shuffled node "
+                "addresses. Oracles: GC callback never sees a node with a validated protection (ghost count) and readers never see the "
+                "canary die; retired_count < threshold after every retirement; thresholds == 2*N*K at quiescence; after readers stop, "
+                "'threshold' further retirements reclaim everything retired before. distinct_nontrivial = distinct (writers, late joiners, K, "
+                "records) tuples plus overlapping MPMC histories.",
+                min_events={"hp_validated_protections": 1000, "hp_reclaimed": 1000, "hp_nodes_still_retired_at_round_end": 1, "HP_SCAN_SNAPSHOT": 10},
+                assumptions=ASSUME_COMMON)
+
+
+def c15(tier, seed):
+    return dict(runs=ds_plan(tier, seed, ["mpsc", "spsc", "mpscr"], ["MPSC_MID", "SPSC_MID"], ([2, 5, 8], [2, 3, 5, 8, 16])),
+                rule=HIST_RULE + "Oracles: no phantom, exactly-once, no loss, per-producer order in the consumer's program order, real-time FIFO "
+                "for the strict queues, EMPTY only if nothing was inside for the whole call or a push overlapped.",
+                min_events={"q_pop_empty": 1, "q_nodes_recycled": 100, "histories_with_overlap": 10, "MPSC_MID": 1, "SPSC_MID": 1},
+                assumptions=ASSUME_COMMON + ["single consumer (worker 0), one producer per lane for the relaxed queue"])
+
+
+def c16(tier, seed):
+    return dict(runs=ds_plan(tier, seed, ["ring"], ["RB_PUSH_MID", "RB_POP_MID"], ([2, 4, 8], [2, 3, 4, 8, 16]), rounds_q=40, rounds_t=400),
+                rule=HIST_RULE + "Capacities 2..64 (seeded). Oracles: sequential prefix (fill, overflow, drain, underflow), no phantom, exactly-once, "
+                "no loss, real-time FIFO, occupancy lower bound <= capacity, and the exact rule for a failed try-operation that nothing overlaps.",
+                min_events={"ring_push_fail": 1, "ring_pop_fail": 1, "ring_laps_total": 100, "RB_PUSH_MID": 1, "RB_POP_MID": 1},
+                assumptions=ASSUME_COMMON + ["2^64 index overflow is unreachable and not simulated"])
+
+
+def c17(tier, seed):
+    return dict(runs=ds_plan(tier, seed, ["wq"], ["WQ_PUSH_MID", "WQ_RETIRE_PRE_SUB", "MPSC_MID"], ([2, 4, 8], [2, 3, 4, 8, 16])),
+                rule=HIST_RULE + "Every thread pushes; whoever is told START_WORKING calls get_work until EMPTY; no harness drain. Oracles: "
+                "exactly-once hand-out, no stranded item at the end, EMPTY only if every push that had returned was already handed out, no two "
+                "sessions [START returned, final get_work invoked] intersect.",
+                min_events={"wq_start_working": 10, "wq_sessions_with_items_of_other_pushers": 1, "WQ_RETIRE_PRE_SUB": 1},
+                assumptions=ASSUME_COMMON)
+
+
 CHECKS = {
     "C02": c02,
+    "C13": c13,
+    "C14": c14,
+    "C15": c15,
+    "C16": c16,
+    "C17": c17,
 }
